@@ -1599,6 +1599,8 @@ struct Runner {
     ghost_anc0: bool,
     /// rate limiter quotas / refusal rules found not enforced during the current step
     limiter_failures: Vec<String>,
+    /// connections that had a fetch reported as failed
+    fetch_failed: BTreeSet<u64>,
     lite: bool,
     /// invalid-block counter of each attacker connection as the model has been told so far
     inv_seen: BTreeMap<u64, u64>,
@@ -1896,7 +1898,15 @@ impl Runner {
                 self.attack_event(*c, NetworkEvent::PeerDisconnected { peer_index: *c, disconnect_type: t }, format!("EDisc {}", gal::boolean(*ext)), false).await?;
             }
             Act::AMsg(c, m) => {
+                let q = match m {
+                    Msg::HeaderHash(HashK::Random, i) => {
+                        let id = self.w.id_of(i).await;
+                        self.quota_probe(*c, id).await
+                    }
+                    _ => None,
+                };
                 self.send_msg(*c, m, rng, false).await?;
+                self.quota_check(*c, q);
             }
             Act::AFlood(c, m, count) => {
                 for _ in 0..*count {
@@ -1915,7 +1925,9 @@ impl Runner {
                 let id = self.w.id_of(i).await;
                 let h = rnd32(rng);
                 let buf = Message::BlockHeaderHash(h, id).serialize();
+                let q = self.quota_probe(*c, id).await;
                 self.attack_event(*c, NetworkEvent::IncomingNetworkMessage { peer_index: *c, buffer: buf }, "ENet (Some MHeaderHash)".to_string(), false).await?;
+                self.quota_check(*c, q);
             }
             Act::AServe(k) => {
                 if self.w.pending_fetches.is_empty() {
@@ -1923,6 +1935,9 @@ impl Runner {
                     return Ok(());
                 }
                 let f = self.w.pending_fetches.remove(0);
+                if let ServeK::Fail = k {
+                    self.fetch_failed.insert(f.idx);
+                }
                 let announced = self.w.buffers.get(&f.hash).cloned();
                 let (ev, kind) = match k {
                     ServeK::Fail => (NetworkEvent::BlockFetchFailed { block_hash: f.hash, peer_index: f.idx, block_id: f.id }, "EFetchFailed".to_string()),
@@ -2019,6 +2034,43 @@ impl Runner {
         }
     }
 
+    /// the fetch quota is per peer (BlockchainSyncState::get_blocks_to_fetch_per_peer, batch size 10): an
+    /// authenticated peer with a fetch url and fewer than 10 fetches in flight that announces an unknown,
+    /// acceptable block must be asked for a block, whatever other peers have in flight.
+    /// Returns the number of fetches in flight towards the connection if the rule applies to this announcement.
+    async fn quota_probe(&self, conn: u64, id: u64) -> Option<usize> {
+        if self.fetch_failed.contains(&conn) {
+            // failed fetches are retried out of the same quota without a new request: not judged
+            return None;
+        }
+        let has_url = {
+            let peers = self.w.n.peers.read().await;
+            peers.index_to_peers.get(&conn).map(|p| !p.block_fetch_url.is_empty() && p.public_key.is_some()).unwrap_or(false)
+        };
+        let acceptable = {
+            let bc = self.w.n.blockchain.read().await;
+            bc.blocks.is_empty() || id > bc.lowest_acceptable_block_id
+        };
+        let in_flight = self.w.pending_fetches.iter().filter(|f| f.idx == conn).count();
+        if has_url && acceptable && in_flight < 10 {
+            Some(in_flight)
+        } else {
+            None
+        }
+    }
+    fn quota_check(&mut self, conn: u64, before: Option<usize>) {
+        if let Some(b) = before {
+            let now = self.w.pending_fetches.iter().filter(|f| f.idx == conn).count();
+            if now <= b {
+                let others: usize = self.w.pending_fetches.iter().filter(|f| f.idx != conn).count();
+                self.limiter_failures.push(format!(
+                    "connection {} announced an unknown block with {} of 10 fetches in flight and was not asked for any block ({} fetches in flight towards other peers): the fetch quota must be per peer",
+                    conn, b, others
+                ));
+            }
+        }
+    }
+
     async fn inv_count(&self, idx: u64) -> u64 {
         let peers = self.w.n.peers.read().await;
         peers.index_to_peers.get(&idx).map(|p| parse_limiter(&format!("{:?}", p.invalid_block_limiter)).0).unwrap_or(0)
@@ -2093,7 +2145,7 @@ async fn run_case(spec: &CaseSpec) -> CaseOut {
             return CaseOut { build_error: Some(e), ..Default::default() };
         }
     };
-    let mut r = Runner { w, out: CaseOut::default(), log_eval: spec.log_eval, ghost_anc0: true, limiter_failures: vec![], lite: spec.spv_n, inv_seen: BTreeMap::new() };
+    let mut r = Runner { w, out: CaseOut::default(), log_eval: spec.log_eval, ghost_anc0: true, limiter_failures: vec![], fetch_failed: BTreeSet::new(), lite: spec.spv_n, inv_seen: BTreeMap::new() };
     if r.log_eval || std::env::var("C11_LOG").is_ok() {
         EVAL_ON.store(if std::env::var("C11_LOG").is_ok() { 2 } else { 1 }, Ordering::Relaxed);
     }
@@ -2349,6 +2401,8 @@ fn scripted(seed: u64) -> Vec<CaseSpec> {
     }
     a.push(Act::HBlock(true));
     v.push(base_spec("every-crafted-block-on-the-tip", seed, a));
+    // two announcing peers that never serve: the fetch quota (10 in flight) is per peer
+    v.push(base_spec("two-announcers", seed, cat(vec![vec![Act::HConnect], handshake(2, 0), handshake(3, 0), vec![Act::AFlood(2, Msg::HeaderHash(HashK::Random, IdK::TipPlus1), 20), Act::AFlood(3, Msg::HeaderHash(HashK::Random, IdK::TipPlus1), 5), Act::Tick(2100), Act::AMsg(3, Msg::HeaderHash(HashK::Random, IdK::TipPlus1)), Act::AMsg(2, Msg::Ping), Act::AAnnounceUnknown(3, IdK::TipPlus1), Act::Tick(2100), Act::HBlock(false)]])));
     // key change on an authenticated entry (listed under C17)
     v.push(base_spec("key-change", seed, cat(vec![handshake(2, 0), vec![Act::AMsg(2, Msg::Challenge), Act::AMsg(2, Msg::Response(RespK::Valid(1)))]])));
     // 10: unsolicited ghost chain on a full node
